@@ -578,7 +578,7 @@ func drawC11(t *rapid.T) C11Case {
 		} else {
 			c.Rules = []m.Rule{{Head: m.P("p", x, y), Body: []m.Pred{m.P("d", x), m.P("d", y)}}}
 		}
-	case cls <= 10:
+	case cls <= 8:
 		c.Class = "chain"
 		n := rapid.IntRange(2, 14).Draw(t, "n")
 		for i := 0; i < n; i++ {
@@ -589,7 +589,7 @@ func drawC11(t *rapid.T) C11Case {
 		if rapid.Bool().Draw(t, "from0") {
 			c.Rules[0] = m.Rule{Head: m.P("reach", m.Int(0), y), Body: []m.Pred{m.P("edge", m.Int(0), y)}}
 		}
-	case cls <= 13:
+	case cls >= 11 && cls <= 13:
 		c.Class = "unbound-head"
 		k := rapid.IntRange(1, 4).Draw(t, "k")
 		for i := 0; i < k; i++ {
@@ -613,7 +613,7 @@ func drawC11(t *rapid.T) C11Case {
 		for _, j := range rapid.Permutation(seqInts(len(rules))).Draw(t, "ruleorder") {
 			c.Rules = append(c.Rules, rules[j])
 		}
-	case cls == 16 || cls == 17:
+	case cls == 9 || cls == 10 || cls == 16 || cls == 17:
 		// both early-exit paths in one rule: an expression that passes on some bindings and
 		// raises an error on others, with or without an unbound head variable, facts in drawn order
 		c.Class = "ill-formed-mix"
@@ -641,6 +641,15 @@ func drawC11(t *rapid.T) C11Case {
 		}
 		if rapid.Bool().Draw(t, "join") {
 			r.Body = append(r.Body, m.P("n", y))
+		}
+		if rapid.IntRange(0, 2).Draw(t, "directed") == 0 {
+			// the sharpest order: a binding on which the expression holds (so a result is handed over
+			// and, the head being unbound, the rule is abandoned) followed by one on which it fails
+			c.Facts = []m.Pred{m.P("n", m.Int(int64(rapid.IntRange(1, 9).Draw(t, "first")))), m.P("n", m.Int(0))}
+			for i := rapid.IntRange(0, 2).Draw(t, "more"); i > 0; i-- {
+				c.Facts = append(c.Facts, m.P("n", m.Int(int64(10+i))))
+			}
+			r = m.Rule{Head: m.P("bad", x, m.Var("missing")), Body: []m.Pred{m.P("n", x)}, Exprs: []*m.Expr{exprs[0]}}
 		}
 		c.Rules = []m.Rule{r}
 	case cls <= 15:
